@@ -2260,6 +2260,16 @@ mod fields_ext {
                         cmp::Ordering::Equal => {}
                     }
                 }
+                // A single field needs exactly one type to be converted from.
+                syn::Type::Tuple(syn::TypeTuple { elems, .. })
+                    if self.len() == 1 && elems.is_empty() =>
+                {
+                    return Err(syn::Error::new(
+                        ty.span(),
+                        "wrong tuple length: expected 1, found 0. \
+                         Consider adding 1 more type: `(_)`",
+                    ));
+                }
                 other if self.len() > 1 => {
                     return Err(syn::Error::new(
                         other.span(),
